@@ -475,5 +475,5 @@ def run(ctx):
     from . import c01
     ctx.run_rule("R10.12", "assure_newline (how update writes every kept line back) names no character but `\\n` and calls no trimming: a kept line is written as it was read, plus at most the missing line feed [E-TABLE of constants]",
                  lambda c: c01.r1_9(c, names=("assure_newline",), tag="assure-newline-only", min_bodies=4), floor=4)
-    ctx.run_rule("R10.13", "idempotence of the exit code line: every `[n]` line the generator writes is written for n != 0 only, on every path (shared with C09 R9.10) [E-PATH]", c09.r9_10, floor=3)
+    ctx.run_rule("R10.13", "the exit code line: every `[n]` line the generator writes is written for n != 0 or for the zero the test spells out itself, on every path (shared with C09 R9.10); where the exit code was the expected one a spelled-out `[0]` is kept (F55) [E-PATH]", lambda c: c09.r9_10(c, keep_written_zero=True), floor=5)
     ctx.run_rule("R10.6", "consumed-line conservation in MarkdownIterator::next: each read line is stored once or consumed as a delimiter on every path [E-STATE by dataflow]", r10_6, floor=4)
